@@ -298,7 +298,9 @@ impl World for ServerWorld {
         let healthy_before: Vec<bool> = self.ids.iter().map(|&id| self.srv.verif_connection_ids().contains(&id) && self.srv.disconnect_reason(id).is_none()).collect();
         let srv = &mut self.srv;
         let seq = self.next_seq;
-        self.next_seq += 1;
+        if matches!(a, Act::PacketValid(_) | Act::PacketBadChannel(_) | Act::PacketBudget(_)) {
+            self.next_seq += 1;
+        }
         match a {
             Act::Add(id) => guard("add_connection", || srv.add_connection(*id))?,
             Act::Remove(id) => guard("remove_connection", || srv.remove_connection(*id))?,
@@ -405,7 +407,7 @@ impl World for ServerWorld {
         }
         self.reported_in.hash(&mut h);
         format!("{:?}", self.first_reason).hash(&mut h);
-        (self.next_seq % 3).hash(&mut h);
+        self.next_seq.hash(&mut h);
         h128(&h.finish())
     }
 
@@ -450,7 +452,9 @@ impl World for ClientWorld {
     fn step(&mut self, a: &CAct) -> Result<(), Violation> {
         let c = &mut self.c;
         let seq = self.next_seq;
-        self.next_seq += 1;
+        if matches!(a, CAct::PacketValid | CAct::PacketBadChannel | CAct::PacketBudget) {
+            self.next_seq += 1;
+        }
         let before = c.verif_snapshot();
         let was = c.disconnect_reason();
         let mut emitted = 0usize;
@@ -516,7 +520,7 @@ impl World for ClientWorld {
     fn fingerprint(&self) -> u128 {
         let mut h = std::collections::hash_map::DefaultHasher::new();
         hash_conn(&self.c.verif_snapshot(), &mut h);
-        (self.next_seq % 3).hash(&mut h);
+        self.next_seq.hash(&mut h);
         format!("{:?}", self.first).hash(&mut h);
         h128(&h.finish())
     }
